@@ -661,7 +661,7 @@ def build_payload(it, v):
                 current_attribute=None if cur is None else cobj.CurrentAttribute(
                     attribute=attr_value(cur[0], cur[1])),
                 attribute_reference=None if ref is None else cobj.AttributeReference(
-                    vendor_identification=ref.get("vendor", "x"), attribute_name=en(enums.Tags, ref["tag"])))
+                    vendor_identification=ref.get("vendor", "x"), attribute_name=ref["name"]))
         return OP[op], P.DeleteAttributeRequestPayload(
             unique_identifier=u, attribute_name=it.get("name"), attribute_index=it.get("index"))
     # operations the server does not implement (decodable)
